@@ -56,6 +56,14 @@ OpCore == /\ l <= NEv /\ E.ev \in OpEvents /\ EvWellFormed
           /\ Consume
 TOp == OpCore /\ ustore' = {p \in ustore : p[2] \notin Removed(EvS)}
 
+\* a removal racing with a successful listing of the same endpoint: one of the two is the later one, for every view
+RaceS == {E.e :> OpReg(Listing(E.L)), E.e :> OpRm}
+TRace == /\ Is("Race") /\ E.e \in Eps /\ ~E.errRm /\ ~E.errReg
+         /\ \E S \in RaceS : /\ act' = "Race" /\ Apply(S)
+                              /\ pend' = pend \cup PendOf(S) /\ regs' = regs \cup RegsOf(S)
+                              /\ ustore' = {p \in ustore : p[2] \notin Removed(S)}
+         /\ Consume
+
 \* a list with a nameless entry pushed through the registry API
 TBad  == /\ Is("Bad") /\ E.e \in Eps
          /\ IF E.rejected THEN act' = "Bad" /\ Apply(E.e :> OpNone("Bad")) /\ UNCHANGED <<pend, regs>>
@@ -152,7 +160,7 @@ TraceInit == /\ flt = [e \in Eps |-> NoFilter]
              /\ last = [e \in Eps |-> {}] /\ lastN = [e \in Eps |-> 0] /\ known = {}
              /\ perEp = [e \in Eps |-> {}] /\ idx = {} /\ uni = {} /\ dirty = {}
              /\ act = "Init" /\ scn = <<>> /\ l = 1 /\ variant = "none" /\ pend = {} /\ regs = {} /\ ustore = {}
-TraceNext == TReset \/ TOp \/ TBad \/ TDump \/ KF_C10_1 \/ KF_Dump \/ KF_C10_4
+TraceNext == TReset \/ TOp \/ TRace \/ TBad \/ TDump \/ KF_C10_1 \/ KF_Dump \/ KF_C10_4
 TraceSpec == TraceInit /\ [][TraceNext]_tvars
 HW == HWMark(l)
 
